@@ -39,6 +39,9 @@ type gvar struct {
 	dropped bool
 	stub    map[int]bool // methods whose current epoch is a stub (a second bare Return is not generated)
 	clauses map[int]int  // When clauses configured per method in the current epoch
+	// needApply: user code has re-assigned the variable; only an Apply is known to put the mock
+	// back (a stub call that continues an existing When does not touch the variable at all)
+	needApply bool
 }
 
 type gm struct{ v map[vkey]*gvar }
@@ -61,6 +64,12 @@ func (m *gm) step(op world.Op) bool {
 		}
 		if op.K == "iwhen" && !simpleMethod(ifc.Ifaces[op.T].Methods[op.F]) {
 			return false
+		}
+		if gg := m.g(vkey{op.T, op.N}); gg.needApply {
+			if op.K != "iapply" {
+				return false
+			}
+			gg.needApply = false
 		}
 		g := m.g(vkey{op.T, op.N})
 		if g.dropped || (g.builder != -1 && g.builder != op.B) {
@@ -93,6 +102,7 @@ func (m *gm) step(op world.Op) bool {
 			if g.builder == op.B && !g.dropped {
 				g.stub = map[int]bool{}
 				g.clauses = nil
+				g.needApply = false
 			}
 		}
 	case "dropref":
@@ -108,6 +118,15 @@ func (m *gm) step(op world.Op) bool {
 		if op.K == "icall" && (op.F < 0 || op.F >= len(ifc.Ifaces[op.T].Methods)) {
 			return false
 		}
+	case "iassign":
+		if op.T < 0 || op.T >= len(ifc.Ifaces) || op.N < 0 || op.N > 2 {
+			return false
+		}
+		g := m.g(vkey{op.T, op.N})
+		if g.builder == -1 || g.dropped {
+			return false // only interesting between two mocks of a live builder
+		}
+		g.needApply = true
 	case "gc", "checkvars":
 	default:
 		return false
@@ -172,7 +191,7 @@ func (W) Gen(prop string, seed uint64, tier string) *world.Plan {
 		}
 		nm := len(ifc.Ifaces[k.t].Methods)
 		var op world.Op
-		switch r.Pick(26, 14, 22, 12, 5, 4, 9, 8, 7, 9) {
+		switch r.Pick(26, 14, 22, 12, 5, 4, 9, 8, 7, 9, 6) {
 		case 0:
 			op = world.Op{K: "iapply", B: b, T: k.t, N: k.n, F: r.Intn(nm), V: r.U64()}
 		case 1:
@@ -193,6 +212,8 @@ func (W) Gen(prop string, seed uint64, tier string) *world.Plan {
 			op = world.Op{K: "ireturns", B: b, T: k.t, N: k.n, F: r.Intn(nm), V: r.U64(), W: uint64(2 + r.Intn(3))}
 		case 9:
 			op = world.Op{K: "iwhen", B: b, T: k.t, N: k.n, F: r.Intn(nm), V: r.U64(), W: r.U64()}
+		case 10:
+			op = world.Op{K: "iassign", T: k.t, N: k.n, F: r.Intn(2)}
 		}
 		if m.step(op) {
 			ops = append(ops, op)
@@ -210,11 +231,15 @@ type mstate struct {
 }
 
 type vstate struct {
-	mocked  bool
-	builder int
-	saved   [2]uintptr
-	methods map[int]*mstate
-	dropped bool
+	// assigned: user code stored its own value into the variable after it was mocked; the mock is
+	// back in the variable after the next mock operation on it
+	assigned   bool
+	reassigned bool // an assignment happened in this mock epoch (the restore check is then skipped)
+	mocked     bool
+	builder    int
+	saved      [2]uintptr
+	methods    map[int]*mstate
+	dropped    bool
 }
 
 type exec struct {
@@ -263,8 +288,8 @@ func (x *exec) callMethod(k vkey, mi int, seed uint64) {
 	it := ifc.Ifaces[k.t]
 	m := it.Methods[mi]
 	s := x.v(k)
-	if !s.mocked {
-		return // un-mocked variables are only checked for being untouched
+	if !s.mocked || s.assigned {
+		return // un-mocked (or user-reassigned) variables are only checked for being untouched
 	}
 	r := rng.Derive(seed, 8)
 	// arguments: the replacement's parameters minus the context
@@ -385,6 +410,9 @@ func (x *exec) checkVars() {
 		s := x.vs[k]
 		w := words(ifc.Ifaces[k.t].Vars[k.n])
 		x.env.Check()
+		if s != nil && s.reassigned {
+			continue
+		}
 		if s == nil || !s.mocked {
 			want := x.initial[k]
 			if w != want {
@@ -471,10 +499,20 @@ func (x *exec) step(op world.Op) {
 			ms.model.Clauses = append(ms.model.Clauses, &model.Clause{Alts: [][]model.ArgMatcher{alt}, Results: [][]interface{}{res}})
 			x.env.Probe("interface_when_clause")
 		}
-		s.mocked, s.builder = true, op.B
+		s.mocked, s.builder, s.assigned = true, op.B, false
 		x.env.T("%s %s.%s", op.K, vname(k), m.Name)
 		x.checkVars()
 		x.callMethod(k, op.F, op.V^0x77)
+	case "iassign":
+		k := vkey{op.T, op.N}
+		s := x.v(k)
+		if !s.mocked {
+			return
+		}
+		ifc.Assign(ifc.Ifaces[op.T].Vars[op.N], op.F == 1)
+		s.assigned, s.reassigned = true, true
+		x.env.Probe("variable_reassigned_between_mocks")
+		x.env.T("iassign %s impl=%d", vname(k), op.F)
 	case "icall":
 		x.callMethod(vkey{op.T, op.N}, op.F, op.W)
 	case "icallall":
@@ -499,7 +537,7 @@ func (x *exec) step(op world.Op) {
 			if s.mocked && s.builder == op.B && !s.dropped {
 				w := words(ifc.Ifaces[k.t].Vars[k.n])
 				x.env.Check()
-				if w != s.saved {
+				if w != s.saved && !s.reassigned {
 					x.fail("iface/restore", "after Reset variable %s holds %x, want the value it held before its first mock %x", vname(k), w, s.saved)
 				}
 				*s = vstate{builder: -1, methods: map[int]*mstate{}}
